@@ -1405,7 +1405,13 @@ fn parse_vars(exprs: &[&Vec<SExpr>], _lsp_hints: &mut LspHints) -> Result<HashMa
             let var_expr = match subexprs.next() {
                 Some(v) => match v {
                     SExpr::Atom(_) => v.clone(),
-                    SExpr::List(l) => parse_list_var(l, &vars),
+                    SExpr::List(l) => {
+                        if matches!(l.t.first(), Some(SExpr::Atom(a)) if a.t == "concat") {
+                            // concat resolves the variables it uses right away.
+                            check_vars_are_not_cyclic(&vars)?;
+                        }
+                        parse_list_var(l, &vars)
+                    }
                 },
                 None => bail_expr!(var_name_expr, "variable name must have a subsequent value"),
             };
@@ -1428,7 +1434,13 @@ fn parse_vars(exprs: &[&Vec<SExpr>], _lsp_hints: &mut LspHints) -> Result<HashMa
 /// Resolving also recurses once per variable in a chain of references, so chains are bounded.
 fn check_vars_are_not_cyclic(vars: &HashMap<String, SExpr>) -> Result<()> {
     const MAX_VAR_NESTING: usize = 128;
-    fn collect_var_refs<'a>(expr: &'a SExpr, refs: &mut Vec<&'a str>) {
+    /// Collects the variables that `expr` refers to, each with the number of lists around the
+    /// reference, and returns the list nesting of `expr` itself.
+    fn collect_var_refs<'a>(
+        expr: &'a SExpr,
+        lists_around: usize,
+        refs: &mut Vec<(&'a str, usize)>,
+    ) -> usize {
         match expr {
             SExpr::Atom(a) => {
                 // Within a macro, modifier prefixes can precede the variable: `S-$var`.
@@ -1436,70 +1448,87 @@ fn check_vars_are_not_cyclic(vars: &HashMap<String, SExpr>) -> Result<()> {
                 if let Some(name) =
                     (a.t.strip_prefix('$')).or_else(|| unprefixed.ok()?.strip_prefix('$'))
                 {
-                    refs.push(name);
+                    refs.push((name, lists_around));
                 }
+                lists_around
             }
-            SExpr::List(l) => l.t.iter().for_each(|e| collect_var_refs(e, refs)),
+            SExpr::List(l) => (l.t.iter())
+                .map(|e| collect_var_refs(e, lists_around + 1, refs))
+                .max()
+                .unwrap_or(lists_around + 1),
         }
     }
     enum Visit {
         InProgress,
-        /// Length of the longest chain of references that starts at the variable.
-        Done(usize),
+        /// Length of the longest chain of references that starts at the variable, and the list
+        /// nesting of its value once all references are resolved. Code that resolves variables
+        /// recurses once per link of a chain and once per level of nesting.
+        Done(usize, usize),
     }
-    let var_refs: HashMap<&str, (&SExpr, Vec<&str>)> = vars
+    let var_refs: HashMap<&str, (&SExpr, usize, Vec<(&str, usize)>)> = vars
         .iter()
         .map(|(name, expr)| {
             let mut refs = vec![];
-            collect_var_refs(expr, &mut refs);
-            refs.retain(|r| vars.contains_key(*r));
-            (name.as_str(), (expr, refs))
+            let nesting = collect_var_refs(expr, 0, &mut refs);
+            refs.retain(|(r, _)| vars.contains_key(*r));
+            (name.as_str(), (expr, nesting, refs))
         })
         .collect();
     let mut names: Vec<&str> = var_refs.keys().copied().collect();
     names.sort_unstable();
     let mut visits: HashMap<&str, Visit> = HashMap::default();
     // Depth-first walk over the references, with an explicit stack: the chains can be long.
-    let mut stack: Vec<(&str, &SExpr, std::slice::Iter<&str>)> = vec![];
+    let mut stack: Vec<(&str, &SExpr, std::slice::Iter<(&str, usize)>)> = vec![];
     for root in names {
         if visits.contains_key(root) {
             continue;
         }
-        if let Some((expr, refs)) = var_refs.get(root) {
+        if let Some((expr, _, refs)) = var_refs.get(root) {
             visits.insert(root, Visit::InProgress);
             stack.push((root, expr, refs.iter()));
         }
         while let Some((name, expr, unvisited_refs)) = stack.last_mut() {
             match unvisited_refs.next() {
-                Some(referenced) => match (visits.get(referenced), var_refs.get(referenced)) {
-                    (None, Some((ref_expr, ref_refs))) => {
-                        visits.insert(referenced, Visit::InProgress);
-                        stack.push((referenced, ref_expr, ref_refs.iter()));
+                Some((referenced, _)) => {
+                    match (visits.get(referenced), var_refs.get(referenced)) {
+                        (None, Some((ref_expr, _, ref_refs))) => {
+                            visits.insert(referenced, Visit::InProgress);
+                            stack.push((referenced, ref_expr, ref_refs.iter()));
+                        }
+                        (Some(Visit::InProgress), _) => bail_expr!(
+                            expr,
+                            "The variable {name} refers to itself, directly or through other variables"
+                        ),
+                        _ => {}
                     }
-                    (Some(Visit::InProgress), _) => bail_expr!(
-                        expr,
-                        "The variable {name} refers to itself, directly or through other variables"
-                    ),
-                    _ => {}
-                },
+                }
                 None => {
-                    let longest_ref_chain = var_refs
-                        .get(name)
-                        .into_iter()
-                        .flat_map(|(_, refs)| refs.iter())
-                        .filter_map(|r| match visits.get(r) {
-                            Some(Visit::Done(len)) => Some(*len),
-                            _ => None,
-                        })
-                        .max()
-                        .unwrap_or(0);
+                    let (own_nesting, refs) = match var_refs.get(name) {
+                        Some((_, nesting, refs)) => (*nesting, refs.as_slice()),
+                        None => (0, [].as_slice()),
+                    };
+                    let mut longest_ref_chain = 0;
+                    let mut resolved_nesting = own_nesting;
+                    for (referenced, lists_around) in refs {
+                        if let Some(Visit::Done(chain, nesting)) = visits.get(referenced) {
+                            longest_ref_chain = longest_ref_chain.max(*chain);
+                            resolved_nesting =
+                                resolved_nesting.max(lists_around.saturating_add(*nesting));
+                        }
+                    }
                     if longest_ref_chain >= MAX_VAR_NESTING {
                         bail_expr!(
                             expr,
                             "The variable {name} refers to other variables more than {MAX_VAR_NESTING} levels deep"
                         );
                     }
-                    visits.insert(name, Visit::Done(longest_ref_chain + 1));
+                    if resolved_nesting > MAX_VAR_NESTING {
+                        bail_expr!(
+                            expr,
+                            "The variable {name} expands to lists nested more than {MAX_VAR_NESTING} levels deep"
+                        );
+                    }
+                    visits.insert(name, Visit::Done(longest_ref_chain + 1, resolved_nesting));
                     stack.pop();
                 }
             }
